@@ -91,7 +91,7 @@ CHECKS["C20"] = dict(
    ref="DESIGN.md section 3 (C20)")
 CHECKS["C19"] = dict(
    technique="exhaustive enumeration of the operator/operand-type table plus property-based differential testing of generated C++ and Python computed-field code against an exact rational evaluator",
-   text="Static part (exhaustive): all 11x11 ordered pairs of numeric primitives x {+,-,*,/,**}: yardl gives a verdict for each; verdict and declared result type are symmetric in the operands; the C++ return type and the Python annotation agree; ** yields float64. Dynamic part: generated well-typed expressions (field access, literals, + - * / **, unary minus, casts, vector indexing, size(), explicit parentheses in every association pattern) over a record with one field per numeric primitive are evaluated on generated operand values by the compiled C++ and the Python code; both must equal the exact rational value whenever the documents define it and it fits the declared type (integers exactly, reals within 1e-6/1e-12/1e-9 relative).",
+   text="Static part (exhaustive): all 11x11 ordered pairs of numeric primitives x {+,-,*,/,**}: yardl gives a verdict for each; verdict and declared result type are symmetric in the operands; the C++ return type and the Python annotation agree; ** yields float64. Dynamic part: generated well-typed expressions (field access, literals, + - * / **, unary minus, casts, vector indexing, size(), explicit parentheses in every association pattern; structured operands: subscripts of arrays with two dimensions given positionally / by dimension name / by name in reverse order, size(array[, index | 'name']), dimensionIndex, dimensionCount, size(map), member access through nested records; !switch over integer unions, an optional and a nullable union with a record case) over a record with one field per numeric primitive and those structured fields are evaluated on generated operand values by the compiled C++ and the Python code; both must equal the exact rational value whenever the documents define it and it fits the declared type (integers exactly, reals within 1e-6/1e-12/1e-9 relative).",
    note="trusted: harness/ref/expr.go (exact evaluator and the conservative 'in range' gate); evaluations the documents do not define (non-exact integer division, rounding casts, overflow) are not judged; MATLAB code is not executed",
    ref="DESIGN.md section 3 (C19)")
 CHECKS["C05"] = dict(
